@@ -116,11 +116,12 @@ fn main() {
                 Err(_) => "err".to_string(),
             }
         }
-        ["ps.rt", size, len, seed] => {
+        ["ps.rt", size, len, seed, flags] => {
             let size: u8 = size.parse().unwrap();
+            let flags: u8 = flags.parse().unwrap();
             let s = gen(seed.parse().unwrap(), len.parse().unwrap());
             let mut enc = Vec::new();
-            if prefix_string_encode(size, 0, &s, &mut enc).is_err() {
+            if prefix_string_encode(size, flags, &s, &mut enc).is_err() {
                 return "err encode".to_string();
             }
             let elen = enc.len();
@@ -169,9 +170,13 @@ fn main() {
             let size: u8 = size.parse().unwrap();
             let flags: u8 = flags.parse().unwrap();
             let value: u64 = value.parse().unwrap();
-            let mut out = Vec::new();
+            // the encoders append to a NON-empty Vec; what was there must stay untouched
+            let mut out = vec![0xAAu8, 0x55];
             prefix_int_encode(size, flags, value, &mut out);
-            format!("ok {}", hex(&out))
+            if out[..2] != [0xAA, 0x55] {
+                return "err prefix-clobbered".to_string();
+            }
+            format!("ok {}", hex(&out[2..]))
         }
         ["hd", h] => hd(&unhex(h)),
         // all payloads PREFIX ++ suffix, suffix of N bytes in lexicographic order: digests of the results
@@ -213,9 +218,10 @@ fn main() {
         ["ps.enc", size, flags, h] => {
             let size: u8 = size.parse().unwrap();
             let flags: u8 = flags.parse().unwrap();
-            let mut out = Vec::new();
+            let mut out = vec![0xAAu8, 0x55];
             match prefix_string_encode(size, flags, &unhex(h), &mut out) {
-                Ok(()) => format!("ok {}", hex(&out)),
+                Ok(()) if out[..2] != [0xAA, 0x55] => "err prefix-clobbered".to_string(),
+                Ok(()) => format!("ok {}", hex(&out[2..])),
                 Err(_) => "err".to_string(),
             }
         }
